@@ -441,7 +441,8 @@ pub fn check_tape(ctx: &mut Ctx, tape: &[u16]) -> Result<(), Violation> {
             match valid_position(&mut t) {
                 Some(p) => {
                     let h = fp(&p);
-                    check_text(ctx, &p.fen_with_clocks((h % 120) as u32, 1 + (h >> 9) as u32 % 300), Some(&p))?;
+                    let (half, full) = Pos::clocks_for(h);
+                    check_text(ctx, &p.fen_with_clocks(half, full), Some(&p))?;
                     let four: String = p.fen().split(' ').take(4).collect::<Vec<_>>().join(" ");
                     check_text(ctx, &four, Some(&p))?;
                     check_builder(ctx, &state_of(&p), true)
